@@ -153,8 +153,29 @@ def sequential(ctx: Ctx, kind: str, doc_edges: set) -> None:
             core_tasks.recover_pending_invocations()
             core_tasks.recover_running_invocations()
             poll_run(rB)
-            # writers run arbitrarily late, in any order
+            # writers run arbitrarily late, in any order - and somebody (the monitor) READS the histories while a few writers are still
+            # to come: whatever that reader sees, the histories read after the flush are complete
             ctx.rng.shuffle(defer.pending)
+            late = [defer.pending.pop() for _ in range(min(len(defer.pending), ctx.rng.choice([1, 2, 3])))]
+            # ... in particular the writers of the statuses a lifecycle can also bypass (PENDING -> REROUTED without KILLED or *_RECOVERY,
+            # REGISTERED -> REROUTED without CONCURRENCY_CONTROLLED): without them the history still LOOKS like a complete path
+            def _st(w):  # type: ignore[no-untyped-def]
+                try:
+                    return w.args[1].status_record.status.value
+                except Exception:  # noqa: BLE001
+                    return ""
+            bypassable = [w for w in defer.pending if _st(w) in ("killed", "pending_recovery", "running_recovery", "concurrency_controlled")]
+            for w in bypassable:
+                defer.pending.remove(w)
+            late += bypassable
+            defer.flush()
+            for i_ in {x[0] for x in rec.log}:
+                try:
+                    app.state_backend.get_history(i_)
+                except BaseException:  # noqa: BLE001
+                    pass
+            for w_ in late:
+                w_.run_now()
             defer.flush()
             flush(app)
             judge(ctx, kind, app, rec, doc_edges, "sequential-lifecycles", one_changer=True)
@@ -377,6 +398,44 @@ def flush_waits_for_every_writer(ctx: Ctx, kind: str) -> None:
     ctx.notes[f"flush_wait_schedules_{kind}"] = n
 
 
+def fault_after_the_change(ctx: Ctx, kind: str, doc_edges: set) -> None:
+    """something fails right AFTER a status change was committed (the trigger notification of `set_invocation_status` raises - a trigger
+    store that is locked, a broken condition): the change happened, so it has its history entry, whatever becomes of the caller"""
+    for at in ("pending", "running", "success", "failed"):
+        app = make_app(kind, ctx.tmp, app_id=f"c10fault{kind}{at}")
+        rec = Recorder(app)
+        t = app.task(T.prog_body)
+        rA = rctx("rA")
+        real = app.trigger.report_tasks_status
+        hit = []
+
+        def report(ids, status=None, *a, **k):  # type: ignore[no-untyped-def]
+            if status is not None and status.value == at and not hit:
+                hit.append(1)
+                raise RuntimeError("trigger store unavailable")
+            return real(ids, status, *a, **k)
+
+        app.trigger.report_tasks_status = report  # type: ignore[method-assign]
+        try:
+            t("fail" if at == "failed" else "ok")
+            for _ in range(2):
+                try:
+                    for inv in list(app.orchestrator.get_invocations_to_run(1, rA)):
+                        try:
+                            inv.run(rA)
+                        except BaseException:  # noqa: BLE001
+                            pass
+                except BaseException:  # noqa: BLE001
+                    pass
+        finally:
+            del app.trigger.report_tasks_status
+        flush(app)
+        ctx.distinct((kind, "fault-after-change", at, bool(hit)))
+        judge(ctx, kind, app, rec, doc_edges, f"fault-after-change:{at}", {"fault_at": at, "fault_hit": bool(hit)})
+        del app.orchestrator._atomic_status_transition
+        del app.orchestrator._register_new_invocations
+
+
 def adjacent_transitions(ctx: Ctx, kind: str, doc_edges: set) -> None:
     """two accepted changes of ONE invocation by different runners back to back: the second request is issued (and retried)
     while the first is anywhere between its validation, its write and its return - the first thread paused after each of its
@@ -504,6 +563,7 @@ def run(ctx: Ctx) -> None:
         overlapping_writers(ctx, kind, doc_edges)
         adjacent_transitions(ctx, kind, doc_edges)
         flush_waits_for_every_writer(ctx, kind)
+        fault_after_the_change(ctx, kind, doc_edges)
         concurrent(ctx, kind, doc_edges)
     ctx.obligation("flushed history == logged transitions (multiset, own invocation, documented path by time of change) on Mem and SQLite",
                    not any(v["signature"].startswith("history-") for v in ctx.violations), "see violations")
